@@ -107,29 +107,39 @@ func runChildSide(f lib.Flags, res *lib.Result, key string) {
 				tie.Record(sid.Triple+fmt.Sprint(sid.Seq), len(lines) > 6, in, "accepted:"+last(model), "accepted:"+last(verdicts))
 			}
 		}
-		// update-while-subscribing scenarios on every triple with an Update RPC
+		// update-while-subscribing scenarios on every triple with an Update RPC: "gap" deterministic through the
+		// yield point before the listener is registered, "race" by timing only
 		if t.update != nil {
-			for q := 0; q < f.N(2, 20); q++ {
-				sid := sessionID{Kind: "race", Triple: t.key(), Seed: f.Seed, Seq: q, Steps: f.N(12, 25)}
-				lines, verdicts := runRaceSession(t, sid, mon)
-				model, err := drv.Batch(lines)
-				if err != nil {
-					tie.Fail(err)
-					return
-				}
-				in := map[string]any{"kind": "race", "triple": sid.Triple, "seed": sid.Seed, "seq": sid.Seq, "steps": sid.Steps}
-				ok := true
-				for i := range lines {
-					if model[i] != verdicts[i] {
-						in["line"] = lines[i]
-						in["lines"] = lines[:i+1]
-						tie.Record(sid.Triple+"/race"+fmt.Sprint(sid.Seq), true, in, model[i], verdicts[i])
-						ok = false
-						break
+			for _, fam := range []struct {
+				kind    string
+				n, step int
+			}{{"gap", f.N(1, 6), f.N(8, 20)}, {"race", f.N(1, 20), f.N(10, 25)}} {
+				for q := 0; q < fam.n; q++ {
+					sid := sessionID{Kind: fam.kind, Triple: t.key(), Seed: f.Seed, Seq: q, Steps: fam.step}
+					run := runRaceSession
+					if fam.kind == "gap" {
+						run = runGapSession
 					}
-				}
-				if ok {
-					tie.Record(sid.Triple+"/race"+fmt.Sprint(sid.Seq), true, in, "accepted:"+last(model), "accepted:"+last(verdicts))
+					lines, verdicts := run(t, sid, mon)
+					model, err := drv.Batch(lines)
+					if err != nil {
+						tie.Fail(err)
+						return
+					}
+					in := map[string]any{"kind": fam.kind, "triple": sid.Triple, "seed": sid.Seed, "seq": sid.Seq, "steps": sid.Steps}
+					ok := true
+					for i := range lines {
+						if model[i] != verdicts[i] {
+							in["line"] = lines[i]
+							in["lines"] = lines[:i+1]
+							tie.Record(sid.Triple+"/"+fam.kind+fmt.Sprint(sid.Seq), true, in, model[i], verdicts[i])
+							ok = false
+							break
+						}
+					}
+					if ok {
+						tie.Record(sid.Triple+"/"+fam.kind+fmt.Sprint(sid.Seq), true, in, "accepted:"+last(model), "accepted:"+last(verdicts))
+					}
 				}
 			}
 		}
@@ -344,7 +354,7 @@ func replay(f lib.Flags) int {
 	}
 	b, _ := json.Marshal(in)
 	var sid sessionID
-	if err := json.Unmarshal(b, &sid); err != nil || (sid.Kind != "triple" && sid.Kind != "tween" && sid.Kind != "race") {
+	if err := json.Unmarshal(b, &sid); err != nil || (sid.Kind != "triple" && sid.Kind != "tween" && sid.Kind != "race" && sid.Kind != "gap") {
 		fmt.Println("replay: unknown input", string(b))
 		return 2
 	}
@@ -378,6 +388,9 @@ func replay(f lib.Flags) int {
 			}
 			if sid.Kind == "race" {
 				run = runRaceSession
+			}
+			if sid.Kind == "gap" {
+				run = runGapSession
 			}
 			lines, _ := run(t, sid, m)
 			fmt.Printf("replay %s seq=%d seed=%d: %d observations\n  %s\n", sid.Triple, sid.Seq, sid.Seed, len(lines), strings.Join(lines, "\n  "))
